@@ -109,6 +109,86 @@ theorem ter_end_lines_finish (excl : List (List Char)) (ignh : Bool) (serial : N
     exact reads_as_finish pdb excl ignh _ _ _ (by decide) (by decide) (by decide) (by decide) (by decide)
       (by decide) (by decide)
 
+/-- an ATOM line of the writer that contains no '#' is read as whatever atom the column slicing of
+the raw line yields (`fields_roundtrip` says which) -/
+theorem atom_lines_read (excl : List (List Char)) (ignh : Bool) (serial : Nat) (a : Atom) (pa : PAtom)
+    (hhash : (atomLine pdb serial a).all (· ≠ '#') = true)
+    (hparse : parseAtomLine pdb excl ignh (atomLine pdb serial a) = .ok (.keep pa)) :
+    ReadsAsAtom pdb excl ignh (atomLine pdb serial a) pa := by
+  have h : atomLine pdb serial a = ['A', 'T', 'O', 'M'] ++ [' ', ' '] ++ render atomFmt.tail (atomEnv serial a) := rfl
+  rw [h] at hhash hparse ⊢
+  exact reads_as_atom pdb excl ignh _ _ _ pa (by decide) (by decide) (by decide) (by decide) (by decide)
+    (by decide) hhash hparse
+
+/-- the spec of the writer field a reader column covers -/
+def specAt (sl : RSlice) : Spec :=
+  (covers atomFmt sl.name sl.start sl.stop).getD ⟨' ', .dflt, 0, 0, .s, false⟩
+
+/-- kind of value the PDB writer passes for each name (see `atomEnv`): 0 = int, 1 = str, 2 = fixed-point -/
+def atomKind : FName → Nat
+  | .atomid | .resid => 0
+  | .x | .y | .z | .occupancy | .temp_factor => 2
+  | _ => 1
+
+def kindOkB (sp : Spec) (rty : RTy) (k : Nat) : Bool :=
+  match sp.ty, rty, k with
+  | .d, .int, 0 => true
+  | .s, .str, 1 => true
+  | .f, .float, 2 => decide (1 ≤ sp.prec)
+  | _, _, _ => false
+
+theorem atom_slices_ok : (mkSlices 0 pdbReaderFields).all (fun sl =>
+    decide (covers atomFmt sl.name sl.start sl.stop = some (specAt sl)) && decide ((specAt sl).fill = ' ') &&
+    kindOkB (specAt sl) sl.ty (atomKind sl.name)) = true := by
+  decide
+
+theorem kindOk_atomEnv (sp : Spec) (rty : RTy) (serial : Nat) (a : Atom) (n : FName)
+    (h : kindOkB sp rty (atomKind n) = true) : kindOk sp rty (atomEnv serial a n) := by
+  unfold kindOkB at h
+  unfold kindOk
+  cases n <;> cases hty : sp.ty <;> cases rty <;> simp_all [atomKind, atomEnv]
+
+/-- **field_roundtrip, whole ATOM record.**  If every value of an atom fits its column (and strings
+have no blanks at their ends), the column slicing of `PDBParser._atom` applied to the ATOM line
+that `write_pdb_string` produces returns exactly the values written: serial, names, chain, residue
+number, insertion code, coordinates, occupancy, temperature factor, element. -/
+theorem atom_record_roundtrip (serial : Nat) (a : Atom)
+    (hfit : ∀ sl ∈ mkSlices 0 pdbReaderFields, fitsField (specAt sl) (atomEnv serial a sl.name)) :
+    readFields readFieldPdb (atomLine pdb serial a) (mkSlices 0 pdbReaderFields) =
+      .ok [(.atomid, .int serial), (.atomname, .str (a.atomname.getD [])), (.altloc, .str (a.altloc.getD [])),
+           (.resname, .str (a.resname.getD [])), (.chain, .str (a.chain.getD [])), (.resid, .int (a.resid.getD 1)),
+           (.insertion_code, .str (a.icode.getD [])), (.x, .dec a.x 3), (.y, .dec a.y 3), (.z, .dec a.z 3),
+           (.occupancy, .dec (a.occ.getD 100) 2), (.temp_factor, .dec (a.temp.getD 0) 2),
+           (.element, .str (a.element.getD [])), (.charge, .str [])] := by
+  have h := (fields_roundtrip atomFmt (atomEnv serial a) atom_fmt_allTrunc.1 (mkSlices 0 pdbReaderFields) specAt
+    (by
+      intro sl hsl
+      have hok := List.all_eq_true.mp atom_slices_ok sl hsl
+      simp only [Bool.and_eq_true, decide_eq_true_eq] at hok
+      exact ⟨hok.1.1, hok.1.2, kindOk_atomEnv _ _ _ _ _ hok.2, hfit sl hsl⟩)).1
+  exact h
+
+/-- **ATOM record round trip.**  An atom whose values fit their columns, with an element, a blank or
+'A' alternate location and a residue name that is not excluded, is read back from its ATOM line as
+exactly the atom written (serial, names, chain, residue number, insertion code, coordinates to
+0.001 Å, occupancy, temperature factor, element). -/
+theorem pdb_atom_roundtrip (excl : List (List Char)) (serial : Nat) (a : Atom)
+    (hfit : ∀ sl ∈ mkSlices 0 pdbReaderFields, fitsField (specAt sl) (atomEnv serial a sl.name))
+    (halt : a.altloc.getD [] = [] ∨ a.altloc.getD [] = ['A'])
+    (hex : a.resname.getD [] ∉ excl) (hel : a.element.getD [] ≠ []) :
+    parseAtomLine pdb excl false (atomLine pdb serial a) =
+      .ok (.keep { atomid := serial, atomname := a.atomname.getD [], altloc := a.altloc.getD [],
+                   resname := a.resname.getD [], chain := a.chain.getD [], resid := a.resid.getD 1,
+                   icode := a.icode.getD [], x := (a.x, 3), y := (a.y, 3), z := (a.z, 3),
+                   occ := (a.occ.getD 100, 2), temp := (a.temp.getD 0, 2), element := a.element.getD [] }) := by
+  unfold parseAtomLine
+  have h := atom_record_roundtrip serial a hfit
+  have hp : pdb.readerFields = pdbReaderFields := rfl
+  rw [hp, h]
+  rcases halt with halt | halt <;>
+    simp [pdbAtomOfProps, Props.str, Props.int, Props.dec, Props.get, List.find?, halt, hex, hel, bind, Except.bind,
+      pure, Except.pure]
+
 /-! ## non-vacuity: concrete instances of the hypotheses used above -/
 
 /-- columns 22–26 of an ATOM record are the residue number, 30–38 the x coordinate -/
